@@ -218,7 +218,7 @@ func (o *ownCtx) ownedCall(call *ssa.Call, idx int, sk ssa.Value, depth int, why
 	if g == nil {
 		*why = "it is the result of a dynamic call"
 		// closures passed as `op`: all possible callees
-		cs := o.c.Callees(call)
+		cs := o.c.CalleesData(call)
 		if len(cs) == 0 {
 			return false
 		}
@@ -1089,36 +1089,103 @@ func derivesFromOwnPayload(v ssa.Value, sk ssa.Value, fPay *types.Var, d int) bo
 const textInplaceTTL = "R-inplace-keeps-ttl: where a function computes a key's new value from the same key's previous value (APPEND, SETRANGE, SETBIT …: a change in place) and installs it in a key object it creates, the deadline it gives the new object on the paths through that computation is the previous object's deadline — a change in place keeps the TTL; only a replacement clears it"
 
 // derivesFromKeyPayload: the value is computed from the payload of some key object stored under the same key name as sk.
-func derivesFromKeyPayload(o *ownCtx, v ssa.Value, sk ssa.Value, d int) bool {
-	if d > 10 || v == nil {
-		return false
+// Returns the instruction that reads that payload, and appends to *chain the blocks every path that computes the value
+// this way passes through (the blocks of the instructions of the derivation; for a phi the predecessor of the edge taken).
+func derivesFromKeyPayload(o *ownCtx, v ssa.Value, sk ssa.Value, d int, chain *[]*ssa.BasicBlock) ssa.Instruction {
+	if d > 12 || v == nil {
+		return nil
 	}
+	note := func(src ssa.Instruction) ssa.Instruction {
+		if src != nil {
+			if in, ok := v.(ssa.Instruction); ok && in.Block() != nil {
+				*chain = append(*chain, in.Block())
+			}
+		}
+		return src
+	}
+	rec := func(x ssa.Value) ssa.Instruction { return note(derivesFromKeyPayload(o, x, sk, d+1, chain)) }
 	switch x := v.(type) {
 	case *ssa.MakeInterface:
-		return derivesFromKeyPayload(o, x.X, sk, d+1)
+		return rec(x.X)
 	case *ssa.TypeAssert:
-		return derivesFromKeyPayload(o, x.X, sk, d+1)
+		return rec(x.X)
 	case *ssa.Slice:
-		return derivesFromKeyPayload(o, x.X, sk, d+1)
+		return rec(x.X)
 	case *ssa.ChangeType:
-		return derivesFromKeyPayload(o, x.X, sk, d+1)
+		return rec(x.X)
+	case *ssa.Convert:
+		return rec(x.X) // []byte <-> string, numeric conversions
+	case *ssa.Extract:
+		return rec(x.Tuple)
+	case *ssa.BinOp:
+		if r := rec(x.X); r != nil { // old value + increment
+			return r
+		}
+		return rec(x.Y)
+	case *ssa.Phi:
+		for i, e := range x.Edges {
+			if r := derivesFromKeyPayload(o, e, sk, d+1, chain); r != nil {
+				*chain = append(*chain, x.Block().Preds[i])
+				return r
+			}
+		}
 	case *ssa.Call:
 		if g := x.Call.StaticCallee(); g != nil && len(x.Call.Args) > 0 && len(g.Params) > 0 && o.c.InPkg(g) && o.payloadAccessor(g, 0) {
-			return sameKeyName(x.Call.Args[0], sk)
+			if sameKeyName(x.Call.Args[0], sk) {
+				return note(x)
+			}
+			return nil
 		}
 		if b, ok := x.Call.Value.(*ssa.Builtin); ok && b.Name() == "append" {
 			for _, a := range x.Call.Args {
-				if derivesFromKeyPayload(o, a, sk, d+1) {
-					return true
+				if r := rec(a); r != nil {
+					return r
+				}
+			}
+		}
+		// library conversions (strconv.ParseFloat(string(old)), strconv.FormatFloat(v), fmt.Sprintf("%d", v)): the
+		// result is computed from the arguments
+		if g := x.Call.StaticCallee(); g != nil && !o.c.InPkg(g) {
+			for _, a := range x.Call.Args {
+				if r := rec(a); r != nil {
+					return r
 				}
 			}
 		}
 	case *ssa.UnOp:
 		if fa, ok := x.X.(*ssa.FieldAddr); ok && fieldOf(fa) == o.fPay {
-			return sameKeyName(fa.X, sk)
+			if sameKeyName(fa.X, sk) {
+				return note(x)
+			}
+			return nil
+		}
+		// a local variable: any value stored into it
+		if al, ok := x.X.(*ssa.Alloc); ok {
+			for _, r := range referrers(al) {
+				if st, ok := r.(*ssa.Store); ok && st.Addr == ssa.Value(al) {
+					if src := derivesFromKeyPayload(o, st.Val, sk, d+1, chain); src != nil {
+						*chain = append(*chain, st.Block())
+						return src
+					}
+				}
+			}
+		}
+	case *ssa.Alloc:
+		// the backing array of a variadic call (fmt.Sprintf("%d", v)): what is stored into its elements
+		for _, r := range referrers(x) {
+			if ia, ok := r.(*ssa.IndexAddr); ok {
+				for _, r2 := range referrers(ia) {
+					if st, ok := r2.(*ssa.Store); ok && st.Addr == ssa.Value(ia) {
+						if src := derivesFromKeyPayload(o, st.Val, sk, d+1, chain); src != nil {
+							*chain = append(*chain, st.Block())
+							return src
+						}
+					}
+				}
+			}
 		}
 	}
-	return false
+	return nil
 }
 
 func ruleInplaceKeepsTTL(c *Ctx) {
@@ -1154,10 +1221,19 @@ func ruleInplaceKeepsTTL(c *Ctx) {
 				continue
 			}
 			// the leaves of the stored value that are computed from the same key's previous payload
-			var inPlace []ssa.Value
+			// the reads of the same key's previous payload the stored value is computed from: every path that changes the
+			// value in place passes through that read
+			type inPl struct {
+				src   ssa.Instruction
+				chain []*ssa.BasicBlock
+			}
+			var inPlace []inPl
+			seenSrc := map[ssa.Instruction]bool{}
 			for _, leaf := range phiLeaves(stripValue(st.Val), map[ssa.Value]bool{}) {
-				if derivesFromKeyPayload(o, leaf, sk, 0) {
-					inPlace = append(inPlace, leaf)
+				var chain []*ssa.BasicBlock
+				if src := derivesFromKeyPayload(o, leaf, sk, 0, &chain); src != nil && !seenSrc[src] {
+					seenSrc[src] = true
+					inPlace = append(inPlace, inPl{src, chain})
 				}
 			}
 			if len(inPlace) == 0 {
@@ -1170,9 +1246,9 @@ func ruleInplaceKeepsTTL(c *Ctx) {
 					exp = st2
 				}
 			}
-			for _, leaf := range inPlace {
-				li, ok := leaf.(ssa.Instruction)
-				if !ok || li.Block() == nil {
+			for _, ip := range inPlace {
+				li := ip.src
+				if li.Block() == nil {
 					continue
 				}
 				k++
@@ -1182,9 +1258,29 @@ func ruleInplaceKeepsTTL(c *Ctx) {
 					c.S.Bad("R-inplace-keeps-ttl", key, c.Pos(st.Pos()), fmt.Sprintf("%s installs a value computed from the key's previous value in a new key object and never gives that object the previous deadline", fnName(fn)))
 					continue
 				}
-				BL := li.Block()
-				after := reachableFrom(BL, nil)
-				// values the deadline can have on paths through BL
+				// the paths that change the value in place pass through every block of the derivation; an edge p→m of a
+				// phi lies on such a path iff every one of those blocks comes before the edge (is p or reaches p) or after
+				// it (is m or is reached from m)
+				reach := map[*ssa.BasicBlock]map[*ssa.BasicBlock]bool{}
+				reaches := func(a, b *ssa.BasicBlock) bool {
+					if reach[a] == nil {
+						reach[a] = reachableFrom(a, nil)
+						if !blockInCycle(a) {
+							delete(reach[a], a)
+						}
+					}
+					return reach[a][b]
+				}
+				onInPlacePath := func(p, m *ssa.BasicBlock) bool {
+					for _, w := range ip.chain {
+						before := w == p || reaches(w, p)
+						after := w == m || reaches(m, w)
+						if !before && !after {
+							return false
+						}
+					}
+					return true
+				}
 				var leaves []ssa.Value
 				seen := map[ssa.Value]bool{}
 				var collect func(v ssa.Value)
@@ -1198,16 +1294,8 @@ func ruleInplaceKeepsTTL(c *Ctx) {
 						leaves = append(leaves, v)
 						return
 					}
-					if !after[phi.Block()] || phi.Block() == BL {
-						// merged before the computation: any of its values may be current there
-						for _, l := range phiLeaves(phi, map[ssa.Value]bool{}) {
-							leaves = append(leaves, l)
-						}
-						return
-					}
 					for i, e := range phi.Edges {
-						p := phi.Block().Preds[i]
-						if p == BL || after[p] {
+						if onInPlacePath(phi.Block().Preds[i], phi.Block()) {
 							collect(e)
 						}
 					}
